@@ -173,6 +173,30 @@ pub fn any_perr() -> PolicyError {
         _ => PolicyError::InternalError,
     }
 }
+/// an arbitrary strict partial order on 4 points (irreflexive, asymmetric, transitive)
+pub fn any_strict_partial_order() -> [[bool; 4]; 4] {
+    let anc: [[bool; 4]; 4] = kani::any();
+    let mut i = 0;
+    while i < 4 {
+        kani::assume(!anc[i][i]);
+        let mut j = 0;
+        while j < 4 {
+            if anc[i][j] {
+                kani::assume(!anc[j][i]);
+                let mut k = 0;
+                while k < 4 {
+                    if anc[j][k] {
+                        kani::assume(anc[i][k]);
+                    }
+                    k += 1;
+                }
+            }
+            j += 1;
+        }
+        i += 1;
+    }
+    anc
+}
 pub fn loc(seg: u64, mc: u64) -> Location {
     Location::new(SegmentIndex::new(seg), MaxCut::new(mc))
 }
@@ -339,6 +363,14 @@ pub struct MStorage {
     pub write_fails: bool,
     pub commit_heads_fails: bool,
     pub last_commit_tag: u8,
+    /// `is_ancestor(x, y)` = `anc[x.segment][y.segment]` (segments 0..4): an assumed contract
+    /// ("some strict partial order"), NOT the real search — see the C11 units for that.
+    pub anc: [[bool; 4]; 4],
+    pub anc_fails: bool,
+    /// loc_mode 4: `get_location(a)` = Some((found_seg, a.max_cut))
+    pub found_seg: u8,
+    /// do not log lookups (keeps the ghost-log index concrete when the number of lookups is symbolic)
+    pub quiet: bool,
 }
 impl MStorage {
     pub fn any() -> Self {
@@ -351,6 +383,10 @@ impl MStorage {
             write_fails: kani::any(),
             commit_heads_fails: kani::any(),
             last_commit_tag: 0,
+            anc: [[false; 4]; 4],
+            anc_fails: false,
+            found_seg: 0,
+            quiet: false,
         }
     }
 }
@@ -376,8 +412,22 @@ impl Storage for MStorage {
     type Segment = MSeg;
     type FactIndex = MFI;
     fn get_location(&self, a: Address, _: &mut TraversalBuffer) -> Result<Option<Location>, StorageError> {
-        log(GET_LOCATION, id_byte(a.id));
+        if !self.quiet {
+            log(GET_LOCATION, id_byte(a.id));
+        }
+        if self.loc_mode == 4 {
+            return Ok(Some(Location::new(SegmentIndex::new(self.found_seg as u64), a.max_cut)));
+        }
         loc_result(self.loc_mode)
+    }
+    fn is_ancestor(&self, x: Location, y: Location, _: &mut TraversalBuffer) -> Result<bool, StorageError> {
+        if !self.quiet {
+            log(IS_ANCESTOR, (x.segment.get() as u8).wrapping_mul(16).wrapping_add(y.segment.get() as u8));
+        }
+        if self.anc_fails {
+            return Err(any_serr());
+        }
+        Ok(self.anc[(x.segment.get() % 4) as usize][(y.segment.get() % 4) as usize])
     }
     fn get_location_from(
         &self,
